@@ -1,3 +1,55 @@
+"""C05 - uniform interpolation kernel.  Accuracy: measured (checks/numcheck.py).  Proved + tied here: the one-dimensional building
+block (FUnifRoots: equispaced roots, Lagrange polynomials in the product form, derivatives) is modelled exactly over Q
+(coq/Num/UnifDefs.v), compared with the C++ values within rounding, and the laws that make P2M / M2M conserve the charge
+(interpolation property, partition of unity for orders 2..8) are theorems (coq/Num/UnifProofs.v, Properties_C05)."""
+import os
+from fractions import Fraction
 from checks import numcheck
+import vlib
+
+TOL = {64: (4e-15, 1e-13, 4e-13), 32: (2e-7, 8e-6, 8e-5)}      # roots, L, dL: 8-12 x the largest deviation measured on the pinned tree
+
+
+def unif_part(rep, sdir, rng):
+    binary, err = vlib.build_harness("h_unif")
+    if not binary:
+        rep.violation(dict(kind="build", clause="h_unif", has_input=True), "harness h_unif does not compile: " + err[-400:], dict(stderr=err))
+        return
+    cases = []
+    for real in (64, 32):
+        for order in range(2, 9):
+            xs = [(-1, 1), (1, 1), (0, 1), (1, 3), (-9, 10)] + [(rng.range(-1000, 1000), 1000) for _ in range(30)] + [(2 * m - (order - 1), order - 1) for m in range(order)]
+            for a, b in xs:
+                cases.append("unif %d %d %d %d" % (real, order, a, b))
+
+    def canon(c, line):
+        return "-"            # compared numerically by the oracle below, not textually
+
+    model = {}
+    mp = os.path.join(sdir, "unif.m"); vlib.write_cases(mp, cases)
+    for c, m in zip(cases, vlib.run_model(mp)):
+        model[c] = m
+
+    def oracle(c, line):
+        real, order = int(c.split()[1]), int(c.split()[2])
+        m = model.get(c, "")
+        if "|" not in m: return "model gave no answer: " + m[:80]
+        ip = [[float(x) for x in part.split()] for part in line.split("|")]
+        ex = [[Fraction(x) for x in part.split()] for part in m.split("|")]
+        names = ("root", "L", "dL")
+        for k in range(3):
+            if len(ip[k]) != order or len(ex[k]) != order: return "%d values for order %d" % (len(ip[k]), order)
+            for n, (u, v) in enumerate(zip(ip[k], ex[k])):
+                if abs(Fraction(u) - v) > Fraction(TOL[real][k]) * max(1, abs(v)):
+                    return "%s_%d = %.17g, the exact value is %s = %.17g" % (names[k], n, u, v, float(v))
+        # partition of unity and zero derivative sum, on the implementation's own values
+        if abs(sum(ip[1]) - 1) > 50 * TOL[real][1]: return "sum of the Lagrange polynomials = %.17g" % sum(ip[1])
+        if abs(sum(ip[2])) > 50 * TOL[real][2] * max(1, max(abs(x) for x in ip[2])): return "sum of the derivatives = %.3g" % sum(ip[2])
+        return None
+    vlib.differential(rep, binary, cases, sdir, "unif", canon=canon, oracle=oracle, model_cases=cases, nontrivial=lambda c, i: True,
+                      clause=lambda c: "unif:order%s:%s" % (c.split()[2], c.split()[1]))
+
+
 def run(tier, seed):
-    return numcheck.run_num("C05", 1, "uniform", tier, seed)
+    props = ("Properties_C05",) if os.path.exists(os.path.join(vlib.COQ, "Properties", "Properties_C05.v")) else ()
+    return numcheck.run_num("C05", 1, "uniform", tier, seed, extra=unif_part, extra_props=props)
